@@ -106,6 +106,72 @@ fn check_desc(rep: &Report, c: &DescCase, thorough: bool, cen: &mut Census) {
     }
 }
 
+/// Structural pass (no execution, so much deeper): for every term up to the bound, every term of
+/// two nested context levels around the fragments of up to three nodes and around the macro
+/// fragments, in all four contexts: lift() succeeds iff lift_check() does, and the lifted policy has
+/// the truth table of the harness's own fold of the term (and / or / thresh over key, hash and lock atoms).
+fn lift_structure<Ctx: crate::terms::Cx>(rep: &Report, ctx: &'static str, n: usize, tap: bool) -> Census {
+    use crate::ast::{build, walk, StrEnv, T};
+    use crate::terms::{explore, Alphabet};
+    let te = explore::<Ctx>(n, Alphabet::Small, tap);
+    let mut all: Vec<T> = te.all().map(|m| walk(m).relabel_distinct()).collect();
+    let mut small: Vec<T> = te.levels.iter().take(4).flat_map(|l| l.iter()).map(|m| walk(m).relabel_distinct()).collect();
+    small.extend(macro_fragments(tap));
+    let deep: std::collections::BTreeSet<T> = small.par_iter().flat_map_iter(|f| in_contexts2::<Ctx>(f)).collect();
+    all.extend(deep);
+    let label = |s: &str| s.as_bytes().to_vec();
+    all.par_iter()
+        .fold(Census::new, |mut cen, t| {
+            let ms = match build::<String, Ctx>(t, &StrEnv) {
+                Ok(m) => m,
+                Err(_) => return cen,
+            };
+            bump(&mut cen, "structure_terms");
+            let tsx = t.sexpr();
+            let viol = |class: &str, what: String| {
+                rep.violation(Violation {
+                    key: format!("C07|structure-{}|{}|{}", class, ctx, tsx),
+                    class: format!("lift-structure-{}-{}", class, t.tag()),
+                    what,
+                    case: json!({"ctx": ctx, "model": tsx, "miniscript": ms.to_string()}),
+                });
+            };
+            let chk = guard(|| ms.lift_check().is_ok());
+            let lifted = guard(|| ms.lift());
+            match (chk, lifted) {
+                (Ok(c), Ok(l)) => {
+                    if c != l.is_ok() {
+                        viol("lift_check-disagrees", format!("lift_check ok = {} but lift ok = {}", c, l.is_ok()));
+                    }
+                    if let Ok(pol) = l {
+                        // the library's policy names keys by their strings; the harness's fold names
+                        // them by hash160 of the label bytes: rename before comparing tables
+                        let mine = crate::c04::own_lift(t, &label);
+                        let theirs = walk_semantic(&pol).map_keys(&|k: &str| {
+                            use bitcoin::hashes::Hash;
+                            hex(&bitcoin::hashes::hash160::Hash::hash(k.as_bytes()).to_byte_array())
+                        });
+                        if !crate::c04::same_truth_table(&mine, &theirs) {
+                            viol("truth-table", format!("lift() = {} differs from the fold of the term", pol));
+                        } else {
+                            bump(&mut cen, "structure_lifts_equal");
+                        }
+                    } else {
+                        bump(&mut cen, "structure_lift_refused");
+                    }
+                }
+                (Err(e), _) | (_, Err(e)) => viol("panic", e),
+            }
+            cen
+        })
+        .reduce(Census::new, |mut a, b| {
+            for (k, v) in b {
+                *a.entry(k).or_insert(0) += v;
+            }
+            a
+        })
+}
+
 pub fn run(tier: Tier) -> i32 {
     let rep = Report::new("C07", tier);
     match crate::kat::run_kats() {
@@ -141,6 +207,12 @@ pub fn run(tier: Tier) -> i32 {
             a
         });
     rep.merge_counts(&cen);
+    let ns = tier.pick(5, 6);
+    rep.extra("structure_nodes", json!(ns));
+    rep.merge_counts(&lift_structure::<miniscript::Segwitv0>(&rep, "segwitv0", ns, false));
+    rep.merge_counts(&lift_structure::<miniscript::Tap>(&rep, "tap", ns, true));
+    rep.merge_counts(&lift_structure::<miniscript::Legacy>(&rep, "legacy", ns - 1, false));
+    rep.merge_counts(&lift_structure::<miniscript::BareCtx>(&rep, "bare", ns - 1, false));
     if let Some(d) = models.iter().rev().find(|d| matches!(d, D::Tr(_, l) if l.len() == 2)) {
         rep.sample(json!({"descriptor_model": d.sexpr()}));
     }
